@@ -377,3 +377,14 @@ mod tests {
         test_ring_buf(buf);
     }
 }
+
+#[cfg(futures_intrusive_verif)]
+impl<T, A> ArrayBuf<T, A>
+where
+    A: core::convert::AsMut<[T]> + core::convert::AsRef<[T]> + RealArray<T>,
+{
+    /// Verification hook: `(size, recv_idx, send_idx)`
+    pub fn verif_indices(&self) -> (usize, usize, usize) {
+        (self.size, self.recv_idx, self.send_idx)
+    }
+}
